@@ -329,6 +329,9 @@ def check(pid, tier, seed):
         for l in lines:
             print(l, flush=True)
         wall = time.time() - t0
+        if os.environ.get('VERIF_NO_EVIDENCE'):
+            print(f'property={pid} cases={done} violations={reported} (no evidence written: VERIF_NO_EVIDENCE)')
+            return 2 if harness_problem else (1 if reported else 0)
         ev = write_evidence(pid, tier, seed, eng, results, wall, reported, workers, known_hit, extra)
         c = ev['coverage']
         print(f"property={pid} cases={done} executions={c['evaluations']} distinct={c['distinct_nontrivial']} "
